@@ -326,25 +326,30 @@ func (r *clientRun) main() {
 	r.net.RefuseDials(simAddr, 0)
 	r.net.TimeoutDials(simAddr, 0)
 
-	// recovery: the server is up and stays up
+	// recovery: the server is up and stays up, no more faults. An in-flight (black-holed) dial may
+	// still take the dial timeout, then at most the 1 s back-off cap, then one healthy dial.
 	if !r.closed {
-		if p.Mode == "auto" {
-			bound := time.Duration(p.Opt.DialTimeoutMs)*time.Millisecond + 1500*time.Millisecond
-			if !waitFlagFor(r.cl.Connected(), bound) {
-				simrt.Fail("C19-no-reconnect", "the auto-connect client is not connected %v after the server came back", bound)
+		bound := time.Duration(p.Opt.DialTimeoutMs)*time.Millisecond + time.Second + 200*time.Millisecond
+		simrt.Sleep(bound)
+		simrt.WaitQuiescent("client.recovery-settle")
+		if r.closed {
+			// a task closed the client meanwhile
+		} else {
+			if p.Mode == "auto" {
+				if !r.cl.Connected().IsSet() {
+					simrt.Fail("C19-no-reconnect", "the auto-connect client is not connected %v after the last fault although the server is listening", bound)
+				}
+				r.probes["auto_reconnects_checked"]++
 			}
-			r.probes["auto_reconnects_checked"]++
+			last := r.echo(r.bg)
+			if !last.OK() {
+				last = r.echo(r.bg)
+			}
+			if !last.OK() {
+				simrt.Fail("C19-no-recovery", "with the server back and no faults for %v a call still fails: %s", bound, stName(last))
+			}
+			r.probes["recovery_calls_checked"]++
 		}
-		ok := false
-		var last status.Status
-		for attempt := 0; attempt < 3 && !ok; attempt++ {
-			last = r.echo(r.bg)
-			ok = last.OK()
-		}
-		if !ok {
-			simrt.Fail("C19-no-recovery", "with the server back a call still fails: %s", stName(last))
-		}
-		r.probes["recovery_calls_checked"]++
 	}
 	closeStart := simrt.Now()
 	st1 := r.cl.Close()
